@@ -92,6 +92,21 @@ func c11Observe(path string, src []byte, withResolver bool) ([]obj, string) {
 		return nil, "" // goast refuses dot-imports etc.: C09's business
 	}
 	out := []obj{mapsRecord("decorator", af, df, d.Map)}
+	// the same file through the same Decorator once more: the maps must still describe one correspondence
+	var df2 *dst.File
+	if msg := guard(func() { df2, err = d.DecorateFile(af) }); msg != "" {
+		return out, "decorate (second call on the same file): " + msg
+	}
+	if err == nil && df2 != nil {
+		rec := mapsRecord("decorator", af, df2, d.Map)
+		rec["side"] = "decorator"
+		rec["call"] = 2
+		out = append(out, rec)
+		if df2 != df {
+			// a new tree for the same ast: then the first tree is no longer the counterpart of its ast
+			out = append(out, mapsRecord("decorator", af, df, d.Map))
+		}
+	}
 	var r *decorator.Restorer
 	if withResolver {
 		r = decorator.NewRestorerWithImports("example.com/local", guess.New())
